@@ -14,7 +14,7 @@ PRODS = {
     'B': [
         '{I} == {I}', '{I} != {I}', '{I} < {I}', '{I} <= {I}', '{I} > {I}', '{I} >= {I}',
         '{B} and {B}', '{B} or {B}', 'not {B}', '{B} && {B}', '{B} || {B}', '!{B}',
-        '{I} in {L}', '{I} not in {L}', '{S} in M', '{I} in [{I}, {I}]', '{I} in {I}..{I}',
+        '{I} in {L}', '{I} not in {L}', '{S} in M', '{I} in [{I}, {I}]', '{I} in {I}..{I}', '{I} in 1..3', '{I} not in 0..2', '{I} in [1, 2, 3]',
         'all({L}, {{{b}}})', 'any({L}, {{{b}}})', 'none({L}, {{{b}}})', 'one({L}, {{{b}}})',
         '{S} contains {S}', '{S} startsWith {S}', '{S} endsWith {S}', '{S} matches "^a"', '{S} == {S}', '{S} < {S}',
         '{B} ? {B} : {B}', 'Gn({I}, {I})', 'Pf({I})', 'Ptr == nil', 'Ptr?.Next == nil', '{B} == {B}',
